@@ -346,6 +346,9 @@ def set_len(obj, ld):
         obj.get_len = lambda _, data: a if len(data) > th else b
 
 
+_SETNO = [0]
+
+
 def build_field(codec, f):
     k = f['k']
     if k == 'int':
@@ -370,7 +373,10 @@ def build_field(codec, f):
             kw['len'] = f['len']
         if f['little']:
             kw['order'] = 'little'
-        o = codec.BitFieldSet(**kw)
+        # a BitFieldSet is named after its class (codec.py): the real definitions use one subclass per set, so every set of
+        # a built definition gets a class of its own too (same behaviour, distinct name)
+        _SETNO[0] += 1
+        o = type("BitFieldSet%d" % _SETNO[0], (codec.BitFieldSet,), {})(**kw)
     elif k == 'env':
         e = build_env(codec, {'cl': f['cl'], 'fs': f['fs']})
         o = e.f(f['name'], **ld_kw(f['ld']))
